@@ -55,26 +55,21 @@ func (sk *storeKey) clone(newId uint64) *storeKey {
 					prev:    newSl.tail,
 					element: element,
 				}
+				if newSl.tail != nil {
+					newSl.tail.next = item
+				}
 				newSl.tail = item
 				if newSl.head == nil {
 					newSl.head = item
 				}
+				newSl.count++
 			}
 			payload = &newSl
 		} else if flagHasOne(sk.flags, FLAG_KEY_TYPE_HASH_TABLE) {
-			m := sk.payload.(map[string]string)
-			newMap := make(map[string]string, len(m))
-			for k, v := range m {
-				newMap[k] = v
-			}
-			payload = newMap
+			// hashes are stored as a redisDict; rebuild it so that no item is shared
+			payload = newRedisDictFromStringTable(sk.payload.(*redisDict).toStringTable())
 		} else if flagHasOne(sk.flags, FLAG_KEY_TYPE_SET) {
-			m := sk.payload.(map[string]struct{})
-			newMap := make(map[string]struct{}, len(m))
-			for k := range m {
-				newMap[k] = struct{}{}
-			}
-			payload = newMap
+			payload = newRedisDictFromKeyTable(sk.payload.(*redisDict).toKeyTable())
 		} else {
 			panic("unexpected payload type")
 		}
